@@ -177,7 +177,8 @@ class MyPyAstVisitor:
 
             if isinstance(generic_expr, mp_nodes.TupleExpr):
                 generic_types = [item.node for item in generic_expr.items if hasattr(item, "node")]
-            elif isinstance(generic_expr, mp_nodes.NameExpr):
+            elif isinstance(generic_expr, mp_nodes.RefExpr):
+                # A name ("T") or a type variable of another module that is referenced through the module ("types.T")
                 generic_types = [generic_expr.node]
             else:
                 # A base class like "Sequence[list[int]]" does not declare type variables
@@ -1160,7 +1161,8 @@ class MyPyAstVisitor:
                     # Special case, where the method returns an instance of its class
                     return type_
 
-            type_var = sds_types.TypeVarType(name=mypy_type.name, upper_bound=type_)
+            # A type variable that is referenced through its module ("typing.AnyStr") still has a simple name
+            type_var = sds_types.TypeVarType(name=mypy_type.name.split(".")[-1], upper_bound=type_)
             self.type_var_types.add(type_var)
             return type_var
         elif isinstance(mypy_type, mp_types.CallableType):
